@@ -53,7 +53,97 @@ url_for = F.url_for
 OCEANS = [(7, 7, 7), (9, 9, 9)]
 
 
+def _gen_race(t):
+    z = t.pick([1, 2, 3])
+    n = 1 << z
+    return {'kind': 'race', 'service': t.pick(SERVICES), 'coord': [t.choice(n), t.choice(n), z],
+            'policy': t.pick([['random'], ['sticky', 0.5], ['sticky', 0.2]]), 'readers': t.randint(1, 2),
+            'gap': t.pick([1.5, 3.0, 0.2]), 'frac': t.pick([0.0, 0.4]), 'tz': t.pick(C.TIMEZONES)}
+
+
+def _run_race(sc, tape):
+    """a tile is rewritten (by a seeding process storing through the cache API) while it is being served: whatever
+    interleaving of the file-system calls, the validators a response carries must belong to the body it carries -
+    otherwise the client revalidates its stale body with the ETag of the new tile and is told 304 for ever"""
+    import mapproxy.client.http as H
+    import mapproxy.util.times as times
+    from mapproxy.cache.tile import Tile
+    from mapproxy.image import ImageSource
+    from PIL import Image
+    from simkit.sched import SimAbort, SimCrash
+    name = '%s:file:race' % sc['service']
+    w = World(tape, policy=tuple(sc['policy']), step_cap=200000, start_time=1.7e9 + sc['frac'])
+    sched = w.sched
+    clock = w.clock
+    http = F.SimHTTP(w)
+    w.extra_patches.append((H.HTTPClient, 'open', lambda self, url, data=None, method=None: http.open(self, url, data, method)))
+    w.extra_patches.append((times, 'datetime', C.datetime_module(clock)))
+    conf = F.base_conf({'type': 'file', 'directory_layout': 'tc'}, meta_size=[1, 1])
+    coord = tuple(sc['coord'])
+    path, query = url_for(sc['service'], coord)
+    v = None
+    out = {}
+    probes = {'mode_race': 1}
+    with w:
+        app, pc = F.make_app(conf)
+        tm = [tmx for _, _, tmx in pc.caches['c1'].caches()][0]
+        st, hd, body = F.wsgi_get(app, path, query)        # creates the tile (generation 1)
+        clock.now += sc['gap']
+        bbox = tm.grid.tile_bbox(coord)
+        new_gen = 77
+
+        def writer():
+            img = Image.frombytes('RGB', (U.TS, U.TS), U.render(bbox, (U.TS, U.TS), new_gen))
+            tile = Tile(coord, ImageSource(img, image_opts=tm.image_opts))
+            cache = [tmx for _, _, tmx in F.make_conf(conf).caches['c1'].caches()][0].cache     # the other process's object
+            cache.store_tile(tile)
+
+        def reader(i):
+            def fn():
+                out[i] = F.wsgi_get(app, path, query)
+            return fn
+        sched.spawn(writer, 'seeder', w.new_proc('seeder'))
+        server = w.new_proc('server')
+        for i in range(sc['readers']):
+            sched.spawn(reader(i), 'request%d' % i, server)
+        outcome = w.run_tasks()
+        for t_ in sched.tasks:
+            if t_.exc is not None and not isinstance(t_.exc, (SimAbort, SimCrash)):
+                raise t_.exc
+        if outcome != 'done':
+            v = {'sig': 'C20:race-hang:%s' % name, 'msg': 'requests and the concurrent store did not terminate: %s %r' % (
+                outcome, sched.stuck_info)}
+        else:
+            st2, hd2, body2 = F.wsgi_get(app, path, query)       # quiescent: what is stored now, and its validators
+            kind2, gen2 = _decode(body2)
+            for i in sorted(out):
+                st1, hd1, body1 = out[i]
+                kind1, gen1 = _decode(body1)
+                if st1 != 200 or kind1 != 'tile' or gen1 not in (1, new_gen):
+                    v = {'sig': 'C20:race-wrong-response:%s' % name, 'msg': 'request %d during the rewrite: status %s, body %s %r' % (
+                        i, st1, kind1, gen1)}
+                    break
+                if hd1.get('etag') is not None and hd1.get('etag') == hd2.get('etag') and body1 != body2:
+                    st3, hd3, body3 = F.wsgi_get(app, path, query, {'If-None-Match': hd1['etag']})
+                    v = {'sig': 'C20:validators-of-another-body:%s' % name,
+                         'msg': 'a response served while the tile was being rewritten carries the body of generation %r with the '
+                                'ETag %r of the tile as stored afterwards (generation %r): revalidating that copy with '
+                                'If-None-Match is answered %d' % (gen1, hd1.get('etag'), gen2, st3)}
+                    break
+                if gen1 == 1 and gen2 == new_gen and hd1.get('last-modified') == hd2.get('last-modified') and sc['gap'] >= 1.5:
+                    v = {'sig': 'C20:validators-of-another-body:%s' % name,
+                         'msg': 'the old body was sent with the Last-Modified %r of the rewritten tile' % (hd1.get('last-modified'),)}
+                    break
+                if gen1 != gen2:
+                    probes['response_older_than_store'] = 1
+    return {'violation': v, 'digest': C.digest_of('race', sc['service'], sched.log), 'nontrivial': True, 'steps': sched.steps,
+            'sim_time': clock.now - 1.7e9, 'faults': {}, 'probes': probes,
+            'sample': {'mode': 'race', 'service': sc['service'], 'coord': sc['coord'], 'readers': sc['readers']}}
+
+
 def gen(t, tier):
+    if t.chance(0.08):
+        return _gen_race(t)
     z = t.pick([1, 2, 3])
     n = 1 << z
     coords = []
@@ -122,6 +212,12 @@ def gen(t, tier):
 
 
 def shrink(sc):
+    if sc.get('kind') == 'race':
+        if sc['readers'] > 1:
+            c = copy.deepcopy(sc)
+            c['readers'] = 1
+            yield c
+        return
     if sc.get('tz', 'UTC') != 'UTC':
         c = copy.deepcopy(sc)
         c['tz'] = 'UTC'
@@ -176,6 +272,8 @@ def run(sc, tape):
 
 
 def _run(sc, tape):
+    if sc.get('kind') == 'race':
+        return _run_race(sc, tape)
     import mapproxy.client.http as H
     import mapproxy.util.times as times
     import datetime as real_dt
